@@ -15,7 +15,7 @@ import sys
 
 REPO = os.environ.get("VERIF_REPO", "/repo")
 HERE = os.path.dirname(os.path.abspath(__file__))
-OUT = os.path.join(os.path.dirname(HERE), "lean", "BtcHd", "Generated")
+OUT = os.path.join(os.environ.get("VERIF_LEAN_DIR") or os.path.join(os.path.dirname(HERE), "lean"), "BtcHd", "Generated")
 
 
 def _fresh_import():
